@@ -422,3 +422,27 @@ def load_findings():
     if not os.path.exists(p):
         return []
     return json.load(open(p)).get("findings", [])
+
+
+def generic_replay(run, path, block, specdir, module, cfg, env=None):
+    """Re-execute the scenario of a replay file on the current tree and validate it."""
+    run.build()
+    r = json.load(open(path))
+    sc = r.get("scenario")
+    if not sc or "id" not in sc:
+        print(json.dumps(r, indent=1)[:4000])
+        return 0
+    rin = os.path.join(run.tmp, "replay.ndjson")
+    open(rin, "w").write(json.dumps(sc) + "\n")
+    rdir = os.path.join(run.tmp, "rerun")
+    os.makedirs(rdir)
+    p, sums, _ = run.drive(block, "rerun", "-in", rin, "-out", rdir)
+    files = []
+    for sm in sums:
+        files += sm["files"]
+    acc, ids = run.validate(files, specdir, module, cfg, env=env, procs=1, workers=2)
+    if set(ids) <= acc:
+        print("replay: scenario %s is accepted on this tree" % sc["id"])
+        return 0
+    print("VIOLATION property=%s replay=%s" % (run.prop, path))
+    return 1
